@@ -1,5 +1,7 @@
 #pragma once
 
+#include <yaclib/log.hpp>
+
 #include <memory>
 #include <type_traits>
 
